@@ -10,8 +10,8 @@ from vlib.verdict import Case
 
 PROPERTY = 'C18'
 MANIFEST = {
- 'level_text': 'Lean 4 theorems, for every sequence of addEvent/addPeriodicEvent/removeEvent/rescheduleEvent/run/reset calls, clock advances and every program of event functions that themselves schedule, remove, reschedule or raise while running, and for every resolution of ties by the heap, about a model of supybot.schedule.Schedule: registrations = fired + removed + discarded + still scheduled with pairwise distinct registration ids (exactly once; removed never run), nothing fires before its due time, run() ends with nothing due left and never raises (name/heap/dict invariant), fired events carry the function and arguments they were registered with (also after rescheduleEvent, repaired), a raising function only ends its own body, a periodic wrapper re-registers itself whether or not its function raises; kernel-checked; tied to src/schedule.py by a differential run of seeded operation sequences on the real Schedule object (return values/exceptions, call log, full schedule/events/counter dump after every operation, the heap\'s choices checked to be minima), which also evaluates the property statement directly on the implementation.',
- 'level_note': 'Trusted: Lean kernel; axioms propext/Classical.choice/Quot.sound only; CPython heapq pops an entry of minimal due time (the model takes the implementation\'s choice and checks it is a minimum); the correspondence harness (generator quality bounds what it sees); integer-valued virtual clock frozen during run(). Modelled: addEvent (counter, assert, partial effect), removeEvent, rescheduleEvent (after the repair), makePeriodicWrapper/addPeriodicEvent (finally/return semantics, count), reset, run (loop condition, pop, events.pop, except Exception). Not modelled: the lock/threads, the Scheduler plugin on top (persistence, command replay), the drivers.run loop removing a driver whose run() raised (shown never to happen), non-Exception exceptions.',
+ 'level_text': 'Lean 4 theorems, kernel-checked, about a model of supybot.schedule.Schedule, for every sequence of addEvent/addPeriodicEvent/removeEvent/rescheduleEvent/run/reset calls and clock advances, every program of event functions that themselves add, remove, reschedule, add periodic events or raise while running, and every way the heap resolves ties: the name invariant (heap names = keys of events, no name twice) holds in every reachable state and therefore run() never raises; registrations = fired + removed + discarded + still scheduled as multisets with pairwise distinct registration ids (each event fires at most once, a removed event never fires, everything that fired was registered); nothing fires before its due time has passed, each iteration fires an entry of minimal due time, and when run() returns nothing due is left (also events added or rescheduled into the past during the run); a fired event carries the function and arguments of its registration, also after rescheduleEvent (repaired: it dropped them), which moves exactly that entry to the new time keeping its registration; a raising function ends only its own body; a periodic wrapper with occurrences left re-registers itself at now+period whether or not its function raised. Tied to src/schedule.py by a differential run of seeded programs and operation sequences on the real Schedule object (return values/exceptions, call log, full schedule/events/counter dump after every operation; the heap\'s choices are fed to the model, which checks each is a minimum), which also evaluates the property statement directly on the implementation to produce replays.',
+ 'level_note': 'Trusted: Lean kernel; axioms propext/Classical.choice/Quot.sound only; CPython heapq pops an entry of minimal due time (the model takes the implementation\'s choice and checks it is a minimum, so time order is checked per run, not proved of heapq); the correspondence harness (generator quality bounds what it sees); integer-valued virtual clock frozen during run(). Modelled: addEvent (counter, assert, partial effect of the counter increment), removeEvent, rescheduleEvent (after the repair), makePeriodicWrapper/addPeriodicEvent (finally/return semantics, count), reset, run (loop condition, pop, events.pop, except Exception). Not modelled: the lock/threads, the Scheduler plugin on top (persistence, command replay), non-Exception exceptions, event functions calling addPeriodicEvent(now=True) from inside a running event.',
  'technique': 'Lean 4 proof (induction over operation sequences and heap choices with invariants) + differential correspondence',
  'design_ref': 'DESIGN.md §6 C18',
 }
